@@ -144,7 +144,7 @@ def scratch(ctx_dir, name):
 
 def stage_spec(dst, area):
     """copy spec/common and spec/<area> into dst"""
-    for src in (os.path.join(VERIF, 'spec', 'common'), os.path.join(VERIF, 'spec', area)):
+    for src in [os.path.join(VERIF, 'spec', 'common')] + [os.path.join(VERIF, 'spec', a) for a in area.split('+')]:
         for f in glob.glob(os.path.join(src, '*')):
             if os.path.isfile(f):
                 shutil.copy(f, dst)
@@ -349,6 +349,7 @@ class Ctx:
             raise Inconclusive('monitor %s on %s: unexpected %s' % (module, label, r.violated))
         if r.hw != len(evs) + 1:
             raise Inconclusive('monitor %s on %s consumed %s of %d events' % (module, label, r.hw, len(evs)))
+        self.last_out = r.out
         bad = []
         mm = re.search(r'<<\s*"BAD"', r.out)
         i = mm.start() if mm else -1
